@@ -55,6 +55,7 @@ static void ledger_verdict(const cfg_t *c, const char *where)
 static void fill_payload(uint8_t *p, uint32_t L, uint32_t i, uint32_t k, int payload, rng_t *rng)
 {
 	if (payload == PAY_IDENTITY) { memset(p, 0, L); if (i / 8 < L) p[i / 8] = (uint8_t)(1u << (i % 8)); }
+	else if (payload == PAY_BYTEUNIT) { memset(p, 0, L); if (i < L) p[i] = 1; }
 	else for (uint32_t b = 0; b < L; b++) p[b] = (uint8_t)rng_u64(rng);
 	if (payload == PAY_SPARSE) {
 		/* structured contents: whole symbols of zeros, zero 64-bit words, zero bytes, a zero tail (padding), two equal symbols */
